@@ -27,6 +27,8 @@ FLAVOURS = {
     "oid-path": ((False, True, False), (True, True, False)),
     "oid-oid-ci": ((False, False, False), (False, False, False)),
     "path-oidf-ci": ((True, False, False), (False, False, True)),
+    "oidci-oidcs": ((False, False, False), (False, True, False)),
+    "oidcs-oidci": ((False, True, False), (False, False, False)),
 }
 
 
